@@ -669,6 +669,26 @@ func runC16(r *Run) {
 			"the message constructor can return a message that did not pass its own ValidateBasic(): the native route rejects such a message before delivery, the precompile executes it (e.g. a zero-amount delegate stores an empty delegation / unbonding entry)", P.witness(bad)...)
 	}
 	r.Floor("R9", "precompile message constructors", nCtor, 9)
+	r.Rule("R13", "TABLE.address-mapping-is-invertible (sibling agreement): balances() and totalSupply() list a denomination under the address erc20 Keeper.GetCoinAddress gives it — the registered pair's contract, or, for an unregistered IBC voucher, an address derived from the hash (utils.GetIBCDenomAddress). supplyOf(address) must be able to answer for every address those two methods can list: as long as GetCoinAddress derives addresses outside the registry, supplyOf may not answer a constant zero when the registry does not know the address without having consulted the bank supply")
+	{
+		gca, ok1 := P.FnOK("(x/erc20/keeper.Keeper).GetCoinAddress")
+		so, ok2 := P.FnOK("(precompiles/bank.Precompile).SupplyOf")
+		if !ok1 || !ok2 {
+			r.Bad("R13", "anchor/GetCoinAddress+SupplyOf", "", "not found")
+		} else {
+			derives := len(findCalls(gca, func(ci CallInfo) bool { return ci.Name == "GetIBCDenomAddress" })) > 0
+			// supplyOf: a success exit that packs a constant zero without a bank supply read before it
+			isSupplyRead := isCallMatching(func(ci CallInfo) bool {
+				return ci.Name == "GetSupply" || ci.Name == "IterateTotalSupply" || ci.Name == "GetPaginatedTotalSupply"
+			})
+			w := PathQuery{Fn: so, Block: isSupplyRead, Target: func(in ssa.Instruction) bool {
+				ret, ok := in.(*ssa.Return)
+				return ok && classifyExit(ret) != ExitFailure
+			}}.Search()
+			r.Check(!derives || w == nil, "R13", fnID(so)+"#answers-for-every-listed-address", P.Pos(fnPos(so)), "supplyOf consults the bank supply on every success path (or no address is derived outside the registry)",
+				"GetCoinAddress gives unregistered IBC vouchers a hash-derived address, under which balances() and totalSupply() list them, but supplyOf answers 0 for any address the pair registry does not know without looking at the bank supply: for such a voucher the bank module's supply is non-zero and supplyOf(address) is 0", P.witness(w)...)
+		}
+	}
 	r.Rule("R12", "PATH.abi-integers-narrowed-under-guard: the ABI hands a precompile 256-bit integers; wherever a precompile function narrows a *big.Int to a machine word for a native message field (Int64()/Uint64()) the call is reachable only over the passing edge of IsInt64()/IsUint64() on that same value — an unguarded narrowing maps k·2^64 + h to h, so the precompile accepts (and acts on) an argument the native message, which carries the real value, rejects")
 	{
 		nN := 0
